@@ -2,7 +2,20 @@
 import setcheck
 
 
+ID_DLG = ("C06 the status of an ObjectSet with a delegated phase claims more than is true: Available relayed from an ObjectSetPhase that "
+          "reports it although its objects fail their probes (delegated run differs from the in-process twin)")
+
+
 def check(run, tier, seed, replay=None):
+    if replay:
+        import json
+        rsc = json.load(open(replay))["replay"].get("scenario", {})
+        if "family" in rsc:
+            import vlib, C03
+            vlib.std_proof_stage(run, "C06")
+            vlib.build_harness()
+            C03.delegated_stage(run, tier, seed, rsc, pid="C06", ident=ID_DLG)
+            return
     setcheck.set_check(run, "C06", tier, seed, replay, 1500, 25000, "judge06g",
                        "C06 status claims more than the pass observed (Available/controllerOf/Succeeded/InTransition/Archived)",
                        "seeded random worlds over all lifecycle states with stored conditions for older generations, Succeeded already set, "
@@ -11,3 +24,6 @@ def check(run, tier, seed, replay=None):
         # the gate / the Available condition rest on what the phase reconciler records from the prober (machinery of C17)
         import C17
         C17.probe_stage(run, "C06", tier, seed, "C06 Available=True can be reported although a probe fails: the phase reconciler does not record a failing probe (e.g. one with an empty message)")
+        # the Available condition of a delegated phase is the ObjectSetPhase controller's claim (machinery and theorems of C15)
+        import C03
+        C03.delegated_stage(run, tier, seed, pid="C06", ident=ID_DLG)
